@@ -57,9 +57,12 @@ THEOREMS = [
 # round 5: the output rows deliver the report (CC.C10_output_rows, lean/CC/Properties/C10Rows.lean); per-sample circuit equations for the rows themselves
 THEOREMS += ['CC.C10_output_rows', 'CC.C12_rows_sample_circuit']
 LEAN_MODULE_EXTRA = list(globals().get('LEAN_MODULE_EXTRA', [])) + ['CC.Properties.C10Rows']
+# round 5: equilibrium = DC solution at circuit level (lean/CC/Properties/C12Equilibrium.lean; C10_transfer at s = 0)
+THEOREMS += ['CC.C12_equilibrium_is_dc', 'CC.C12_equilibrium_is_dc_unique']
+LEAN_MODULE_EXTRA = list(globals().get('LEAN_MODULE_EXTRA', [])) + ['CC.Properties.C12Equilibrium']
 OPEN_STATEMENTS = [
     "not formalised: 'agrees with the exact response of the linear system for piecewise-linear inputs' — lsim is a parameter of the model; oracle only (independent matrix-exponential reference on every case)",
-    "not formalised: 'for constant inputs they settle to the DC solution' — C12_settle_dc is the fixed-point identity only (needs Re λ < 0 and the flow); oracle only (settle stream against DCSolution)",
+    "not formalised: 'for constant inputs they settle to the DC solution' — proved is the algebraic core only: at a rest point (A x + B u = 0) the outputs are Ã⁻¹ QS u (C12_settle_dc) and the report read from them solves the circuit equations of the DC (s = 0) network, uniquely when that network is well-posed (C12_equilibrium_is_dc, C12_equilibrium_is_dc_unique); that the simulated trajectory CONVERGES to a rest point (needs Re λ < 0 and the flow), and that a rest point exists, is not a theorem; oracle only (settle stream against DCSolution)",
     "not formalised: 'for periodic inputs they settle to the multi-frequency steady state of C09' — C12_frequency_response (= C10_transfer) is the frequency response only, not convergence of the simulation; oracle only (periodic-steady-state stream against TimeDomainSolution)",
 ]
 ASSUMPTIONS = [
